@@ -407,6 +407,7 @@ def _restore_containers():
 def reset_globals():
   """in-place reset of the process-global miros state (start of every run)"""
   _restore_containers()
+  prims.reset_process_sync_objects()
   ev = mods['event']
   hsm = mods['hsm']
   ao = mods['activeobject']
